@@ -188,6 +188,16 @@ pub fn validate(phys: &[u8], opt: &Options) -> Report {
         let mut b = BlobRef { offset: *off, length: *len, data: Vec::new() };
         decode_blob(&log, phys.len() as u64, &mut b, &format!("blob[{bi}]"), opt, &mut r, &mut used);
     }
+    // R3 (strict): the announced XML length is the true length of the document. When the XML is
+    // the last thing in the file, nothing but zero padding may follow its announced end.
+    if opt.strict {
+        let xml_end = xml_log + h.xml_length;
+        if !used.iter().any(|(s, _, what)| *s >= xml_end && what != "XML") {
+            if let Some(k) = log[xml_end as usize..].iter().position(|b| *b != 0) {
+                r.p("R3", format!("non-zero byte {:#04x} found {k} bytes behind the announced end of the XML section: the header's XML length {} is not the true length of the document", log[xml_end as usize + k], h.xml_length));
+            }
+        }
+    }
     // R9 overlap
     let mut u = used.clone();
     u.sort();
